@@ -112,7 +112,45 @@ func faultBody(c *proto.Case, deviators []proto.ID) func(*engine.X) {
 			}
 			return nil
 		}
+		var alt map[string]*schednet.Msg
+		if f.Op == "splice" {
+			alt = getSplice(c, seed, h, f.From, f.K)
+			// the splice is a deviation only if the differently made draw already shows in a message sent BEFORE the
+			// splice round (the party has committed to something) and also changes a message from that round on
+			before, after := false, false
+			for _, t := range h.trace {
+				if t.From != f.From {
+					continue
+				}
+				a := alt[t.Key()]
+				differs := a == nil || string(a.Payload) != string(t.Payload)
+				if r := h.roundOf(t.From, t.Cid); r < f.R {
+					before = before || differs
+				} else {
+					after = after || differs
+				}
+			}
+			if !before || !after {
+				x.Trivial()
+				x.Observe("inapplicable splice: before/after differ =", before, after)
+				return
+			}
+		}
 		net.OnSend = func(m *schednet.Msg) [][]byte {
+			if f.Op == "splice" {
+				if m.From != f.From || h.roundOf(m.From, m.Cid) < f.R {
+					return nil
+				}
+				a := alt[m.Key()]
+				if a == nil {
+					applied++
+					return [][]byte{} // the alternative run sent nothing in this slot
+				}
+				if string(a.Payload) != string(m.Payload) {
+					applied++
+				}
+				return [][]byte{a.Payload}
+			}
 			if m.Cid != f.Cid || m.From != f.From || m.Occ != 0 || (f.To != 0 && m.To != f.To) {
 				return nil
 			}
@@ -172,6 +210,9 @@ func faultBody(c *proto.Case, deviators []proto.ID) func(*engine.X) {
 			return
 		}
 		key := fmt.Sprintf("%s|%s|%s|%s", strings.SplitN(c.Name, "/", 2)[0], baseCid(f.Cid), normPath(f.Path), f.Op)
+		if f.Op == "splice" {
+			key = fmt.Sprintf("%s|splice|draw%d|round%d", strings.SplitN(c.Name, "/", 2)[0], f.K, f.R)
+		}
 		// S1: no crash, no hang
 		if e.Info.Deadlock != "" {
 			x.Failf("hang/"+key, "%s, fault [%s]: threads stayed blocked although every starved party was cancelled: %s", c.Name, f, e.Info.Deadlock)
